@@ -19,13 +19,29 @@ type sortCall struct {
 	named   *types.Named
 	srcExpr string
 	src     ssa.Value
+	via     ssa.Value // set when the sort happens in an in-repo callee handed this object (e.g. Sort → InPlaceSort(copy))
 }
 
-func sortCallsOf(fn *ssa.Function) []sortCall {
+func sortCallsOf(fn *ssa.Function) []sortCall { return sortCallsOfDepth(fn, 0) }
+
+func sortCallsOfDepth(fn *ssa.Function, depth int) []sortCall {
 	var out []sortCall
 	for _, b := range fn.Blocks {
 		for _, in := range b.Instrs {
 			c, ok := in.(*ssa.Call)
+			if ok && depth == 0 && c.Call.StaticCallee() != nil && c.Call.StaticCallee().Pkg == fn.Pkg && len(c.Call.Args) == 1 && len(c.Call.StaticCallee().Params) == 1 {
+				// delegation: the callee sorts the slices of the object it is handed
+				callee := c.Call.StaticCallee()
+				for _, sc := range sortCallsOfDepth(callee, 1) {
+					if f, base, ok := fieldLoad(sc.src); ok && base == ssa.Value(callee.Params[0]) {
+						sc.via = c.Call.Args[0]
+						sc.srcExpr = exprString(c.Call.Args[0]) + "." + f.Name()
+						sc.call = c
+						out = append(out, sc)
+					}
+				}
+				continue
+			}
 			if !ok || !staticCalleeIs(&c.Call, "sort.Sort", "sort.Stable", "sort.IsSorted") {
 				continue
 			}
@@ -60,6 +76,12 @@ func fieldPathsRead(fn *ssa.Function) []string {
 			}
 			path := ""
 			v := u.X
+			// an element of an array-typed key field (hash[b]) is a read of that field
+			if ia, ok := v.(*ssa.IndexAddr); ok {
+				if _, isFA := ia.X.(*ssa.FieldAddr); isFA {
+					v = ia.X
+				}
+			}
 			for {
 				fa, ok := v.(*ssa.FieldAddr)
 				if !ok {
@@ -110,6 +132,9 @@ func checkC18(p *Program, r *Report) {
 	scs := sortCallsOf(srt)
 	for _, sc := range scs {
 		src := ef.Src(sc.src)
+		if sc.via != nil {
+			src = ef.Src(sc.via)
+		}
 		fresh := len(src) > 0
 		for root := range src {
 			if root.Kind != rkFresh {
